@@ -35,7 +35,7 @@ ASSUMPTIONS = [
     "the harness's own writes of input Zarr arrays are made with the tracer paused and live under <workdir>/inputs, which is excluded from the snapshot",
 ]
 NSHARDS = {"quick": 16, "thorough": 32}
-PER_SHARD = {"quick": 120, "thorough": 2500}
+PER_SHARD = {"quick": 120, "thorough": 700}
 
 EXEC = {"n": 0}
 _patched = False
@@ -399,8 +399,8 @@ def finalize(tier, merged):
     return {
         "rule": RULE,
         "floors": [
-            ("monitored phases (build/plan/inspect)", c.get("phases", 0), 4000 if tier == "quick" else 80000),
-            ("lazy (Zarr-backed) arrays built under the monitors", c.get("lazy_arrays_built", 0), 3000 if tier == "quick" else 60000),
+            ("monitored phases (build/plan/inspect)", c.get("phases", 0), 4000 if tier == "quick" else 50000),
+            ("lazy (Zarr-backed) arrays built under the monitors", c.get("lazy_arrays_built", 0), 3000 if tier == "quick" else 35000),
             ("documented triggers confirmed to execute", c.get("triggers_confirmed", 0), 12 * 16 if tier == "quick" else 12 * 32),
             ("public callables never exercised (must be 0)", -len(uncovered), 0),
         ],
